@@ -599,6 +599,22 @@ pub fn generate(seed: u64, scale: usize, which: &str) -> Cases {
             let plan = join_plan(&mut rr, n, with_dead);
             o.push(if with_dead { "joins-with-dead-addresses" } else { "joins" }, run_case(&mut rr, plan));
         }
+        // a node whose only bootstrap address is dead keeps retrying; once somebody bootstraps through it (and so sits in
+        // its signed-peers table) its next attempt reaches the network
+        {
+            let mut rr = r.fork();
+            let plan = vec![
+                Ev::Join(true, vec![]),
+                Ev::Join(true, vec![0]),
+                Ev::Dead,
+                Ev::Join(true, vec![2]),
+                Ev::Join(true, vec![0, 3]),
+                Ev::Lookup(3, true),
+                Ev::Join(false, vec![3]),
+                Ev::Lookup(1, false),
+            ];
+            o.push("retry-after-a-visitor", run_case(&mut rr, plan));
+        }
         // twenty servers, the last one given three dead addresses before the live one: its bootstrap lookup has to
         // spend requests on the dead addresses and still query every server
         {
@@ -655,6 +671,21 @@ pub fn generate(seed: u64, scale: usize, which: &str) -> Cases {
                 Ev::Get(3, key),
             ];
             o.push("corpus-get-joins-find_node", run_case(&mut rr, plan));
+        }
+        // values of the maximal size (1000 bytes): an immutable one and a mutable one, written and read across the network
+        {
+            let mut rr = r.fork();
+            let plan = vec![
+                Ev::Join(true, vec![]),
+                Ev::Join(true, vec![0]),
+                Ev::Join(true, vec![0]),
+                Ev::Join(true, vec![1]),
+                Ev::Put(1, 8),
+                Ev::Get(2, 8),
+                Ev::Put(3, 9),
+                Ev::Get(0, 9),
+            ];
+            o.push("values-of-1000-bytes", run_case(&mut rr, plan));
         }
         // the same signer announces a second time (through another node): readers get the newer announcement
         {
